@@ -202,6 +202,30 @@ CHECKS = {
         note="Extended formats: totality/cleanliness only. Line column before 2.3 not judged. Object addresses masked.",
         technique="TLC trace validation of parsed listing rows against the TLA+ row model over the recorded instruction stream",
     ),
+    "C18": dict(
+        category="model_checking",
+        text="Spec S10 (Session.tla): a process using xdis as a state machine over the shared tables with the public operations as actions; the design "
+             "properties are ResultsAreFunctions and TablesImmutable. TLC enumerates every history up to length 2 (quick) / 3 (thorough) over 18 "
+             "operations (loads of 1.5/2.7/3.8/3.12/3.13 files through both loader paths, disassemble_file in four formats, get_opcode, make_std_api, "
+             "marsh, a corrupt file, a late import of an opcode module) plus seeded longer histories; each is replayed in a forked child of a "
+             "pristine post-import process image and SessionTrace.tla checks every step: result digest = the digest of that operation alone in a "
+             "fresh process, digest of all opcode/magic tables, fields2copy and op_imports keys unchanged.",
+        design_ref="DESIGN.md section 5 C18, spec S10",
+        note="Results compared through digests. Explicit remapping (remap_opcodes) is the excepted action and is not among the operations.",
+        technique="TLC-enumerated operation histories replayed into forked processes; TLC trace validation of every step against the functional model",
+    ),
+    "C07": dict(
+        category="model_checking",
+        text="HostMatrix view of S10: host and loader path are nondeterministic choices that occur in no reader action, so every (host, path) execution "
+             "must be accepted by the same spec instance. The recorders of C01-C05 and C12 are run under several hosts (quick 3.8/3.12/3.13, thorough "
+             "3.8-3.13) x {xdis's unmarshaller forced, load_module as is: built-in marshal fast path and native code objects when file version = "
+             "host version}; all traces are judged by MarshalTrace, BytecodeTrace and LineTablesTrace; classic listing text (addresses and banner "
+             "masked) is compared across all (host, path) pairs of each file.",
+        design_ref="DESIGN.md section 5 C07, specs S1 S3 S4 S10 S12",
+        note="Two recorded findings about listing *text* (code-object repr on the native path; host-dependent set repr order); decoded content is "
+             "judged without exemption.",
+        technique="TLC trace validation of the same recordings under every host and loader path against one spec instance; cross-host text comparison",
+    ),
 }
 
 NOT_YET = "check not built yet in this round (planned: see DESIGN.md section 5); not claimed until its machinery exists"
